@@ -517,7 +517,7 @@ func r034(c *Ctx) {
 // R03.5 draining is left only by Drain.
 func r035(c *Ctx) {
 	const rule = "R03.5 probes-never-leave-draining"
-	c.floor(rule, 3)
+	c.floor(rule, 2) // at least one promoting and one demoting outcome
 	hcc := c.method("Target", "HealthCheckCompleted")
 	draining := c.enumVal(c.server, "TargetStateDraining")
 	stT := c.named("TargetState")
